@@ -10,6 +10,8 @@
 (*                              the bad permutations it was tested on      *)
 (*   MaxMesh(q, occ, res)       maximal_mesh_pattern_of_occurrence         *)
 (*   Describes(SG, q, prop)     auto_bisc's answer against the property    *)
+(*   DescribesAv(SG, q, avoid)  the same for a property defined as avoiding *)
+(*                              the mesh patterns `avoid`                  *)
 (*   SameAs(SG1, SG2, clause)   two pattern collections that must be equal *)
 (*                              as sets of mesh patterns; the clause names *)
 (*                              the promise (a helper left its argument    *)
@@ -49,6 +51,8 @@ TSufficeW == /\ Ev.op = "SufficeW"
 TCleanUp == Ev.op = "CleanUp" /\ bad' = IF \A q \in ToSetOf(Ev.Bad) : BContainsAny(q, AsSG(Ev.SG)) THEN bad ELSE Flag("CleanUpBasesHitEveryBad")
 TMaxMesh == Ev.op = "MaxMesh" /\ bad' = IF ToSetOf(Ev.res) = BMaximalShading(Ev.q, [i \in DOMAIN Ev.occ |-> Ev.occ[i] + 1]) THEN bad ELSE Flag("MaximalShadingOfOccurrence")
 TDescribes == Ev.op = "Describes" /\ bad' = IF Ev.prop = ~BContainsAny(Ev.q, AsSG(Ev.SG)) THEN bad ELSE Flag("AutoBiscDescribesProperty")
-TNext == l <= Len(Trace) /\ l' = l + 1 /\ (TBisc \/ TSame \/ TContains \/ TSuffice \/ TCleanUp \/ TMaxMesh \/ TDescribes \/ TSameAs \/ TSufficeW)
+\* the property is "avoids every mesh pattern of Ev.avoid": the specification evaluates the property itself
+TDescribesAv == Ev.op = "DescribesAv" /\ bad' = IF BContainsAny(Ev.q, AsSG(Ev.avoid)) = BContainsAny(Ev.q, AsSG(Ev.SG)) THEN bad ELSE Flag("AutoBiscDescribesProperty")
+TNext == l <= Len(Trace) /\ l' = l + 1 /\ (TDescribesAv \/ TBisc \/ TSame \/ TContains \/ TSuffice \/ TCleanUp \/ TMaxMesh \/ TDescribes \/ TSameAs \/ TSufficeW)
 TraceDone == l = Len(Trace) + 1 => PrintT(ToJson([verdict |-> bad, drift |-> <<>>, n |-> Len(Trace)]))
 =============================================================================
